@@ -140,6 +140,18 @@ func elfCase(raw json.RawMessage, c *ecase, idx int) {
 					run.Violate("elf", sigOf(c, "outside-accepted"), fmt.Sprintf("ObjAddr(%#x) = %#x for a mapping [%#x, %#x): the address is outside the mapping", out, got, c.MapStart+shift, c.MapLimit+shift), raw, nil)
 				}
 			}
+			// and on one more ObjFile: after a refused SourceLine, an address inside the mapping is translated
+			// correctly or refused as well - never translated with a base that was not computed
+			if f2, err := bu.Open(path, c.MapStart+shift, c.MapLimit+shift, c.MapOff, ""); err == nil {
+				f2.SourceLine(c.MapLimit + shift)
+				for _, a := range c.Addrs {
+					if got, err := f2.ObjAddr(a.X + shift); err == nil && got != a.Want {
+						run.Violate("elf", sigOf(c, "wrong-address-after-refusal"), fmt.Sprintf("after SourceLine(%#x) was refused, ObjAddr(%#x) = %#x; the loader put link address %#x there", c.MapLimit+shift, a.X+shift, got, a.Want), raw, nil)
+						break
+					}
+				}
+				f2.Close()
+			}
 		}
 		for _, a := range order {
 			got, err := f.ObjAddr(a.X + shift)
